@@ -356,6 +356,11 @@ def parseCmapEntry (s : String) : Option (CmapTable.Key × Bytes) :=
     | _ => none
   | _ => none
 
+/-- layout decoders of the diagnostic stream: the token is the hex of the table -/
+def idLayout : FontFile.LayoutDec :=
+  { gdef := fun b => .ok (FontFile.tokenOfBytes b), gsub := fun b => .ok (FontFile.tokenOfBytes b),
+    gpos := fun b => .ok (FontFile.tokenOfBytes b) }
+
 def parseFileFont (fs : List (String × String)) : Option (FontFile.FileFont × (Int × Int)) := do
   let M ← parseMeta fs
   let gly ← getField fs "gly"
@@ -377,8 +382,13 @@ def parseFileFont (fs : List (String × String)) : Option (FontFile.FileFont × 
   let names ← if gn == "-" then some none else
     (let body : String := String.ofList (gn.toList.drop 1)
      (if body.isEmpty then some [] else (body.splitOn ",").mapM fun h => (fromHex h).map (·.map (·.toNat))).map some)
+  let ob (k : String) : Option (Option Bytes) :=
+    match getField fs k with
+    | none => some none
+    | some v => if v == "-" then some none else (fromHex v).map some
   pure ({ scalars := M, glyphs := gs, widths := ws, maxpTtf := mx, sideTables := tabs,
-          cmap := cm, glyphNames := names }, (rise, run))
+          cmap := cm, glyphNames := names, gdef := ← ob "gdefb", gsub := ← ob "gsubb", gpos := ← ob "gposb" },
+        (rise, run))
 
 def prefixes : List String := ["font."]
 
@@ -428,7 +438,7 @@ def handle (op : String) (fs : List (String × String)) : String :=
     | some (F, rr) =>
       match FontFile.writeFile { env := env, riseRun := fun _ => rr } F with
       | .ok b =>
-        match FontFile.readFile (fun _ _ => 0) b with
+        match FontFile.readFile idLayout (fun _ _ => 0) b with
         | .ok r => if r == FontFile.nfFile F then "same" else
             "differ:" ++ ",".intercalate (diffKeys (metaFields r.font) (metaFields (FontFile.nfFile F).font)) ++
             (if r.glyphs == F.glyphs then "" else ",glyphs") ++
